@@ -243,8 +243,19 @@ def build_wb2axil_proto(K):
     seen = top.reg(1, "seen_err"); seenok = top.reg(1, "seen_ok")
     top.sync += [If(wb.ack & wb.err, seen.eq(1)), If(wb.ack & ~wb.err, seenok.eq(1))]
     top.comb += w.eq(seen & seenok)
+    # progress: a wishbone request that has been pending for 3 cycles has had its AXI-Lite request issued (valid raised or already accepted) -
+    # in particular the request that FOLLOWS an error termination
+    waitc = top.reg(2, "wait_cnt")
+    top.sync += If(wb.cyc & wb.stb & ~wb.ack, If(waitc != 3, waitc.eq(waitc + 1))).Else(waitc.eq(0))
+    issued = Signal(name_override="bad_request_not_issued")
+    top.comb += issued.eq((waitc == 3) & wb.cyc & wb.stb & (cnt_aw == 0) & (cnt_ar == 0) & ~bus.aw.valid & ~bus.ar.valid)
+    okafter = top.reg(1, "ok_after_err")
+    top.sync += If(seen & wb.ack & ~wb.err, okafter.eq(1))
+    w2 = Signal(name_override="w_ok_after_error")
+    top.comb += w2.eq(okafter)
     return H("wishbone2axilite_proto", top, [wb.cyc, wb.stb, wb.we, wb.adr, wb.sel, wb.dat_w] + se.free, assume=[asm_m, se.asm, se.no_ovf],
-             bad=dict(request_valid_held=bs, error_responses_propagated=be, one_request_per_wishbone_cycle=onereq), witness=dict(error_and_ok_terminations=w), K=K,
+             bad=dict(request_valid_held=bs, error_responses_propagated=be, one_request_per_wishbone_cycle=onereq, pending_request_is_issued=issued),
+             witness=dict(error_and_ok_terminations=w, ok_termination_after_an_error=w2), K=K,
              funcs=FUNCS, cfg=dict(partner="free AXI-Lite slave with error responses"),
              show=[wb.cyc, wb.stb, wb.we, wb.ack, wb.err, bus.aw.valid, bus.aw.ready, bus.w.valid, bus.w.ready, bus.b.valid, bus.b.resp, bus.ar.valid, bus.ar.ready, bus.r.valid, bus.r.resp], vcycles=30)
 
